@@ -678,8 +678,10 @@ fn c09(tier: &str, thorough: bool) -> i32 {
         add(crate::e1n::spellings(ctx, v), &format!("v{} spellings", v), ctx);
         let names = crate::e1n::base_names();
         if thorough {
-            add(crate::e1n::coexistence(ctx, v, &names, 4), &format!("v{} coexistence k=4 over {} names", v, names.len()), ctx);
-            let few: Vec<String> = names.iter().filter(|n| !n.is_ascii() || n.len() == 1).take(12).cloned().collect();
+            add(crate::e1n::coexistence(ctx, v, &names, 3), &format!("v{} coexistence k=3 over {} names", v, names.len()), ctx);
+            let mid: Vec<String> = names.iter().enumerate().filter(|(i, _)| i % 2 == 0 || *i > 30).map(|(_, n)| n.clone()).take(18).collect();
+            add(crate::e1n::coexistence(ctx, v, &mid, 4), &format!("v{} coexistence k=4 over {} names", v, mid.len()), ctx);
+            let few: Vec<String> = names.iter().filter(|n| !n.is_ascii() || n.len() == 1).take(9).cloned().collect();
             add(crate::e1n::coexistence(ctx, v, &few, 5), &format!("v{} coexistence k=5 over {} names", v, few.len()), ctx);
         } else {
             // quick: all ordered triples over a 22-name subset that keeps every class of name, all ordered pairs over everything
